@@ -448,6 +448,90 @@ def _inline_contextmanagers(tree: ast.Module) -> int:
     return n_done
 
 
+def _isinstance_unions(tree: ast.Module) -> int:
+    """isinstance(x, A | B | C)  ->  isinstance(x, (A, B, C))   (PEP 604 unions of classes in isinstance are the tuple)"""
+    n_done = 0
+
+    def flat(e):
+        if isinstance(e, ast.BinOp) and isinstance(e.op, ast.BitOr):
+            l, r = flat(e.left), flat(e.right)
+            return None if l is None or r is None else l + r
+        if isinstance(e, (ast.Name, ast.Attribute)):
+            return [e]
+        if isinstance(e, ast.Constant) and e.value is None:
+            return [ast.copy_location(ast.Call(func=ast.Name(id="type", ctx=ast.Load()), args=[e], keywords=[]), e)]
+        return None
+
+    for c in ast.walk(tree):
+        # typing.cast("T", e) -> cast(T, e): the quoted form of the same no-op
+        if isinstance(c, ast.Call) and (ast.unparse(c.func).split(".")[-1] == "cast") and len(c.args) == 2 and isinstance(c.args[0], ast.Constant) and isinstance(c.args[0].value, str):
+            try:
+                c.args[0] = ast.copy_location(ast.parse(c.args[0].value, mode="eval").body, c.args[0])
+                for x in ast.walk(c.args[0]):
+                    ast.copy_location(x, c)
+                n_done += 1
+            except SyntaxError:
+                pass
+        if isinstance(c, ast.Call) and isinstance(c.func, ast.Name) and c.func.id in ("isinstance", "issubclass") and len(c.args) == 2 and isinstance(c.args[1], ast.BinOp):
+            parts = flat(c.args[1])
+            if parts and len(parts) > 1:
+                c.args[1] = ast.copy_location(ast.Tuple(elts=parts, ctx=ast.Load()), c.args[1])
+                n_done += 1
+    return n_done
+
+
+def _dataclass_inits(tree: ast.Module) -> int:
+    """A @dataclass without a hand-written __init__ gets the one the decorator generates, spelled out: one parameter and
+    one `self.f = f` per annotated field (ClassVar and init=False fields excepted), followed by the statements of
+    __post_init__ when there is one.  The rules then read such a class like a hand-written one."""
+    n_done = 0
+    for cls in [n for n in ast.walk(tree) if isinstance(n, ast.ClassDef)]:
+        if not any(ast.unparse(d.func if isinstance(d, ast.Call) else d).split(".")[-1] == "dataclass" for d in cls.decorator_list):
+            continue
+        deco = next(d for d in cls.decorator_list if ast.unparse(d.func if isinstance(d, ast.Call) else d).split(".")[-1] == "dataclass")
+        if isinstance(deco, ast.Call) and any(k.arg == "init" and isinstance(k.value, ast.Constant) and k.value.value is False for k in deco.keywords):
+            continue
+        if any(isinstance(n, ast.FunctionDef) and n.name == "__init__" for n in cls.body):
+            continue
+        fields = []
+        for st in cls.body:
+            if isinstance(st, ast.AnnAssign) and isinstance(st.target, ast.Name):
+                ann = ast.unparse(st.annotation)
+                if "ClassVar" in ann:
+                    continue
+                if isinstance(st.value, ast.Call) and ast.unparse(st.value.func).split(".")[-1] == "field" and any(k.arg == "init" and isinstance(k.value, ast.Constant) and k.value.value is False for k in st.value.keywords):
+                    continue
+                fields.append(st)
+        if not fields:
+            continue
+        args, defaults, body = [ast.arg(arg="self")], [], []
+        for st in fields:
+            args.append(ast.arg(arg=st.target.id, annotation=st.annotation))
+            if st.value is not None:
+                d = st.value
+                if isinstance(d, ast.Call) and ast.unparse(d.func).split(".")[-1] == "field":
+                    dk = {k.arg: k.value for k in d.keywords}
+                    d = dk.get("default") or (ast.Call(func=dk["default_factory"], args=[], keywords=[]) if "default_factory" in dk else ast.Constant(value=None))
+                defaults.append(d)
+            elif defaults:
+                defaults.append(ast.Constant(value=None))
+            body.append(ast.Assign(targets=[ast.Attribute(value=ast.Name(id="self", ctx=ast.Load()), attr=st.target.id, ctx=ast.Store())], value=ast.Name(id=st.target.id, ctx=ast.Load())))
+        post = next((n for n in cls.body if isinstance(n, ast.FunctionDef) and n.name == "__post_init__"), None)
+        if post is not None and len(post.args.args) == 1:
+            body += [ast.parse(ast.unparse(x)).body[0] for x in post.body if not (isinstance(x, ast.Expr) and isinstance(x.value, ast.Constant))]
+        fn = ast.FunctionDef(name="__init__", args=ast.arguments(posonlyargs=[], args=args, vararg=None, kwonlyargs=[], kw_defaults=[], kwarg=None, defaults=defaults),
+                             body=body, decorator_list=[], returns=ast.Constant(value=None), type_params=[])
+        like = fields[0]
+        for n in ast.walk(fn):
+            n.lineno = like.lineno
+            n.col_offset = like.col_offset
+            n.end_lineno = like.end_lineno
+            n.end_col_offset = like.end_col_offset
+        cls.body.append(fn)
+        n_done += 1
+    return n_done
+
+
 _BASE_CONSTS = None
 
 
@@ -542,6 +626,8 @@ def desugar(tree: ast.Module, rel=None) -> ast.Module:
     n_stack = _exitstack_to_try(tree)
     n_stack += _inline_new_constants(tree, rel) if rel is not None else 0
     n_stack += _inline_contextmanagers(tree)
+    n_stack += _isinstance_unions(tree)
+    n_stack += _dataclass_inits(tree)
     n_alias = _unalias_bound_methods(tree)
     if d.n_match or d.n_walrus or n_alias or n_stack:
         ast.fix_missing_locations(tree)
